@@ -43,7 +43,38 @@ class AType(AbsObj):
         self.dims = dims or []
         self.nodim = nodim
 
+    SOURCE_FIRST = ('type_char', 'is_numeric', 'is_builtin',
+                    'is_user_defined', 'is_integral', 'is_float',
+                    'is_static_array', 'is_dynamic_array')
+    _MEMO = {}
+
     def getattr_(self, a, interp):
+        if a in AType.SOURCE_FIRST and AType.SIM is not None:
+            # decided by the current source of qbee.expr.Type, so that a
+            # change to these properties reaches the emission analysis; the
+            # summary below is only the fallback
+            key = (id(AType.SIM), a, self.name, self.is_array, self.user,
+                   self.static, self.nodim)
+            if key not in AType._MEMO:
+                try:
+                    v = self.from_source(a, interp)
+                    if is_unk(v):
+                        v = ('summary',)
+                    else:
+                        v = ('v', v)
+                except Raised as r:
+                    v = ('raise', r)
+                except Unmodelled:
+                    v = ('summary',)
+                AType._MEMO[key] = v
+            v = AType._MEMO[key]
+            if v[0] == 'v':
+                return v[1]
+            if v[0] == 'raise':
+                raise Raised(v[1].cls_name, v[1].value, v[1].node)
+        return self.summary_(a, interp)
+
+    def summary_(self, a, interp):
         n = self.name
         if a == 'type_char':
             if n in TYPE_CHAR:
@@ -85,6 +116,9 @@ class AType(AbsObj):
         if a == 'is_coercible_to':
             return vmsim.FnV(lambda ar, k: self._coercible(ar[0]))
         if a == '_type':
+            if AType.SIM is not None:
+                return AType.SIM.enum('qbee.expr', 'BuiltinType').member(
+                    {'USER': 'USER_DEFINED'}.get(n, n))
             return n
         if a == 'default_value':
             return '' if n == 'STRING' else 0
@@ -92,7 +126,27 @@ class AType(AbsObj):
             return vmsim.FnV(lambda ar, k: Unk('can_hold'))
         if a == 'coerce':
             return vmsim.FnV(lambda ar, k: ar[0])
-        return Unk(f'Type.{a}')
+        return self.from_source(a, interp)
+
+    SIM = None
+
+    def from_source(self, a, interp):
+        """An attribute the summary does not list: interpret the property
+        or method of qbee.expr.Type itself on this abstract type."""
+        sim = AType.SIM
+        if sim is None:
+            return Unk(f'Type.{a}')
+        ci = sim.repo.cls('qbee.expr', 'Type')
+        m = sim.repo.find_method(ci, a) if ci is not None else None
+        if m is None:
+            return Unk(f'Type.{a}')
+        from .astutil import decorators
+        decs = [d[0] for d in decorators(m.node)]
+        clo = Closure(m.node, sim.module_env('qbee.expr'), name=f'Type.{a}')
+        if 'property' in decs:
+            return clo.call_([self], {}, interp)
+        clo.bound = self
+        return clo
 
     def _coercible(self, other):
         if not isinstance(other, AType):
@@ -539,6 +593,7 @@ class GenSim:
         self.compilation = ACompilation(self)
         self.cur_routine = ARoutine('_main', 'toplevel', {})
         self.notes = []
+        AType.SIM = self
 
     # ---- class model ----------------------------------------------------
     def node_class(self, name):
